@@ -50,11 +50,14 @@ struct Ring {
     virtual size_t head() = 0;
     virtual size_t tail() = 0;
     virtual uint64_t mask() = 0;
+    virtual void reinit() = 0;   // the init call again on the live object (same storage, same capacity)
 };
 #define RING_IMPL(CLS, NAME, TYPE)                                                          \
     struct CLS : Ring {                                                                     \
         NAME r; TYPE *mem; size_t cap;                                                      \
-        explicit CLS(size_t n) : cap(n) { mem = (TYPE *)malloc(sizeof(TYPE) * n); NAME##_init(&r, mem, n); } \
+        /* the ring object lies in memory that holds 'dirt' before its init call (a stack frame, a re-used heap block) */ \
+        CLS(size_t n, int dirt) : cap(n) { mem = (TYPE *)malloc(sizeof(TYPE) * n); memset((void *)&r, dirt, sizeof r); NAME##_init(&r, mem, n); } \
+        void reinit() override { NAME##_init(&r, mem, cap); }                                \
         ~CLS() override { free(mem); }                                                      \
         void put(uint64_t v) override { NAME##_put(&r, (TYPE)v); }                          \
         uint64_t get() override { return (uint64_t)(TYPE)NAME##_get(&r); }                  \
@@ -79,7 +82,7 @@ struct RbHarness : Harness {
     const char *name() const override { return "rbsim"; }
     std::vector<std::string> props() const override { return {"C19"}; }
     std::vector<std::string> probes(const std::string &) const override {
-        return {"override_eviction", "override_eviction_capacity_1", "put_on_full_dropped", "head_wrapped", "tail_wrapped", "get_on_empty", "clear", "iterator_across_wrap", "capacity_of_64k_elements_or_more", "octet_ring_with_more_than_255_slots"};
+        return {"override_eviction", "override_eviction_capacity_1", "put_on_full_dropped", "head_wrapped", "tail_wrapped", "get_on_empty", "clear", "iterator_across_wrap", "capacity_of_64k_elements_or_more", "octet_ring_with_more_than_255_slots", "live_ring_initialised_again", "ring_object_in_memory_with_odd_octets"};
     }
     uint64_t runs(const std::string &, const Tier &t) const override { return t.thorough() ? 5000000 : 4000000; }
 
@@ -107,6 +110,7 @@ struct RbHarness : Harness {
         int64_t type = (int64_t)r.below(5);
         if (cap > 200 && type == 0) type = 1;
         p["type"] = (long long)type; p["cap"] = (long long)cap;
+        { static const int DIRT[] = {0, 0, 0xff, 0x01, 0xa5, 0xbe, 0x80, 0x7f}; p["dirt"] = DIRT[r.below(8)]; }
         int nops = (int)r.range(1, t.thorough() ? (r.chance(1, 10) ? 5000 : 200) : 60);
         unsigned wp = 1 + (unsigned)r.below(5), wc = 1 + (unsigned)r.below(5), wa = (unsigned)r.below(2), wo = (unsigned)r.below(3);
         Json ops = Json::arr();
@@ -114,7 +118,7 @@ struct RbHarness : Harness {
             uint64_t k = r.below(wp + wc + wa + wo);
             if (k < wp) ops.push("put");
             else if (k < wp + wc) ops.push("get");
-            else if (k < wp + wc + wa) ops.push(r.chance(1, 3) ? "clear" : (r.chance(1, 2) ? "ovr1" : "ovr0"));
+            else if (k < wp + wc + wa) ops.push(r.chance(1, 3) ? "clear" : (r.chance(1, 6) ? "reinit" : (r.chance(1, 2) ? "ovr1" : "ovr0")));
             else ops.push(r.chance(1, 2) ? "obs" : "iter");
         }
         if (r.chance(1, 60)) {   // rings of a few hundred elements (indices beyond what an octet holds), all element types, driven by bulk puts and gets
@@ -155,13 +159,15 @@ struct RbHarness : Harness {
         if (cap >= 65536) COUNT("probe.capacity_of_64k_elements_or_more");
         if (cap > 255 && cap < 65536 && (plan.geti("type") % 5) == 0) COUNT("probe.octet_ring_with_more_than_255_slots");
         int type = (int)(plan.geti("type") % 5); if (type < 0) type = 0;
+        const int dirt = (int)(plan.geti("dirt") & 0xff);
+        if (dirt & 1) COUNT("probe.ring_object_in_memory_with_odd_octets");
         std::unique_ptr<Ring> R;
         switch (type) {
-        case 0: R.reset(new OctetRing((size_t)cap)); break;
-        case 1: R.reset(new U16Ring((size_t)cap)); break;
-        case 2: R.reset(new U32Ring((size_t)cap)); break;
-        case 3: R.reset(new U64Ring((size_t)cap)); break;
-        default: R.reset(new IntRing((size_t)cap)); break;
+        case 0: R.reset(new OctetRing((size_t)cap, dirt)); break;
+        case 1: R.reset(new U16Ring((size_t)cap, dirt)); break;
+        case 2: R.reset(new U32Ring((size_t)cap, dirt)); break;
+        case 3: R.reset(new U64Ring((size_t)cap, dirt)); break;
+        default: R.reset(new IntRing((size_t)cap, dirt)); break;
         }
         std::deque<uint64_t> M;        // model: values in the queue, oldest first
         std::deque<uint64_t> Ms;       // their serial numbers
@@ -259,12 +265,17 @@ struct RbHarness : Harness {
             } else if (op == "ovr1" || op == "ovr0") {
                 ovr = op == "ovr1"; R->ovr(ovr); c.ev(EV_API, 4, ovr, 0);
                 observe("override");
+            } else if (op == "reinit") {
+                // the init call again on the live ring: an empty, non-overwriting ring of the same capacity, whatever it was before
+                R->reinit(); M.clear(); Ms.clear(); ovr = false; c.ev(EV_API, 6, 0, 0);
+                COUNT("probe.live_ring_initialised_again");
+                observe("reinit");
             } else if (op == "obs") {
                 observe("observer");
             } else if (op == "iter") {
                 iterate("observer");
             }
-            if (op == "put" || op == "get" || op == "clear") iterate(op.c_str());
+            if (op == "put" || op == "get" || op == "clear" || op == "reinit") iterate(op.c_str());
             if (!c.viol.empty()) break;
         }
     }
